@@ -9,6 +9,7 @@ from bitcoin.core import CTransaction, CMutableTxOut
 from bitcoin.core.script import CScript, RawSignatureHash, SignatureHash
 
 ID = 'C03'
+THREADSAFE = True      # cases touch no process-wide setting (no chain selection): the runner also runs them from several threads at once
 LEVEL = 'exploration'
 RULE = ('generated (transaction 1..6 inputs / 0..6 outputs with/without witness, mutable or immutable) x (subscript built from '
         'tokens: any opcode incl. OP_CODESEPARATOR at start/middle/end/repeated, data pushes in every push encoding that may contain '
@@ -27,7 +28,34 @@ def selftest():
     RS.selftest()
 
 
+def check_threads(case):
+    """ONE transaction object (mutable, and immutable) hashed from four threads at once, each thread at its own input and hash
+    type: hashing only reads the transaction ("never changes the transaction it was given"), so concurrent readers are within
+    the contract; every digest is the reference digest and the object is unchanged afterwards"""
+    m = W.tx_from_json(case['tx'])
+    sc = bytes.fromhex(case['script'])
+    bad_all = []
+    for mutable in (True, False):
+        tx = libx.mk_tx(m, mutable)
+        before = tx.serialize()
+        jobs = []
+        for j in range(len(m['vin'])):
+            for ht in (1, 2, 3, 0x81, 0x83):
+                want, ok = RS.legacy(sc, m, j, ht)
+                jobs.append(('raw idx=%d ht=%#x' % (j, ht), (lambda j=j, ht=ht: RawSignatureHash(CScript(sc), tx, j, ht)[0]), want))
+        jobs.append(('serialize', tx.serialize, before))
+        bad = libx.in_threads(jobs, seconds=1.0)
+        if bad:
+            raise Violation('threads/shared-transaction', 'four threads hashing inputs of one %s transaction at the same time: %s gave %s' % (
+                'mutable' if mutable else 'immutable', bad[0][0], bad[0][1].hex() if isinstance(bad[0][1], bytes) else bad[0][1]))
+        if tx.serialize() != before:
+            raise Violation('threads/transaction-changed', 'the transaction is different after concurrent signature hashing')
+    return {'nt': True, 'evals': 2 * len(jobs), 'cls': ['threads']}
+
+
 def check_case(case):
+    if case.get('kind') == 'threads':
+        return check_threads(case)
     m = W.tx_from_json(case['tx'])
     sc = bytes.fromhex(case['script'])
     assert S.is_valid(sc), 'generator produced a subscript that does not parse'
@@ -74,6 +102,14 @@ def check_case(case):
                     raise Violation('cooked/digest', 'SignatureHash(ht=0x%02x, idx=%d) gave %r' % (ht, idx, r2[1]))
             elif r2[0] != 'exc':
                 raise Violation('cooked/no-valueerror-' + outcome, 'SignatureHash(ht=0x%02x, idx=%d) returned %r instead of raising ValueError' % (ht, idx, r2[1]))
+    ht1 = (idx * 37 + len(sc)) % 256
+    want1, ok1 = RS.legacy(sc, m, idx, ht1)
+    for kind, hv in libx.int_kinds(ht1)[1:]:
+        got1 = libx.call('raw-hashtype-as-' + kind, RawSignatureHash, csc, tx, idx, hv)[1]
+        if got1[0] != want1 or (got1[1] is None) != ok1:
+            raise Violation('raw/hashtype-as-' + kind, 'legacy digest differs when the hash type 0x%02x is passed as %s' % (ht1, kind))
+        if ok1 and not wshape and libx.call('cooked-hashtype-as-' + kind, SignatureHash, csc, tx, idx, hv)[1] != want1:
+            raise Violation('cooked/hashtype-as-' + kind, 'SignatureHash differs when the hash type 0x%02x is passed as %s' % (ht1, kind))
     if tx.serialize() != before or libx.tx_model_of(tx) != fields:
         raise Violation('mutated/tx', 'signature hashing changed the transaction it was given')
     if (tx.GetTxid(), tx.GetHash(), hash(tx)) != ids or tx.GetHash() != H.dsha(before):
@@ -203,6 +239,11 @@ def t_main(ctx):
                 body[(j * 1013 + 22) % (L - 30) // 11 * 11] = 0xab            # an executed-position separator (start of a period)
             t = {'version': 1, 'vin': [['07' * 32, 1, '', 0xfffffffe], ['08' * 32, 0, '51', 5]], 'vout': [[1, '51'], [2, '52']], 'wit': None, 'locktime': 3}
             ctx.run({'tx': t, 'script': bytes(body).hex(), 'idx': k % 2, 'mutable': bool(k % 3 == 0), 'hts': [1, 2, 3, 0x81, 0x83, 0, 0x43]})
+    if ctx.shard == 1 % ctx.nshards:
+        t = {'version': 2, 'vin': [[bytes([i + 1]).hex() * 32, i, '51' * i, 0xfffffff0 + i] for i in range(4)], 'vout': [[i + 1, '5%d' % i] for i in range(3)],
+             'wit': None, 'locktime': 9}
+        ctx.run({'kind': 'threads', 'tx': t, 'script': '76a914' + '22' * 20 + '88ab51ac'})
+        ctx.exhaustive.append('one 4-input transaction (mutable, immutable) hashed by four threads at once, 20 (input, hash type) pairs')
     if ctx.shard == 0:
         ctx.exhaustive.append('subscripts of 9,999 .. 100,000 bytes with 0..5 code separators (7 hash types)')
         ctx.exhaustive.append('all 256 hash-type bytes for every generated (transaction, subscript, index) triple')
